@@ -396,6 +396,19 @@ class AfterBacktracking(Facet):
             def obs(ev, w_):
                 if ev.exc is not None:
                     backtracked["n"] += 1
+                    return
+                # whatever backtracking went on inside: a program that IS produced respects the limit
+                for i in ev.outputs:
+                    try:
+                        p = w_.phenotype(i)
+                    except Exception:  # noqa: BLE001
+                        continue
+                    dep = safe_depth(p, w_.info)
+                    if dep > w_.max_depth:
+                        rec.fail(
+                            f"C03/depth-exceeded/{case['rep']}/infeasible-contexts/{ev.kind if ev.kind in ('mutate', 'crossover') else 'create'}",
+                            f"{ev.kind} ({case['rep']}, decider {case['decider']}, max_depth {w_.max_depth}, grammar min {w_.min_depth}) on a grammar with infeasible contexts: program of depth {dep}: {canon_str(safe_canon(p, w_.info))}; grammar {spec_str(case['spec'])}",
+                        )
 
             w.run(obs)
             twin = World(case)
